@@ -26,6 +26,8 @@ PlansMore == {P3(Q(c11, A1), Q(c11, A2), Q(c11, B2)),
               P3(Bt(c11, <<A1, B2>>), Q(c11, A1), Q(c11, B2)),
               P3(Bt(c11, <<A1, B2>>), Bt(c11, <<B2, A1>>), Q(c11, A1))}
 PlansAll == PlansCore \cup PlansMore
+\* everything but the two-batch plan (whose state space is an order of magnitude larger)
+PlansMost == PlansAll \ {P3(Bt(c11, <<A1, B2>>), Bt(c11, <<B2, A1>>), Q(c11, A1))}
 PL1 == {P3(Q(c11, A1), Q(c11, A1), Q(c11, A1))}
 PL2 == {P3(Q(c11, A1), Q(c11, A1), Q(c11, B2))}
 PL3 == {P3(Q(c11, A1), Q(c21, A1), Q(c11, A1))}
